@@ -321,13 +321,23 @@ _QUICK_K2 = [
     ("replay", "loop", "NN", [_thr()], None),  # two ensure_active callers (subscriber, producer) + loop
     ("replay", "loop", "NC", [_pre(), _thr()], None),
     ("replay", "newthread", "NN", [_thr()], None),
-    ("replay", "loop", "NN", [_pre(), _pre()], None),
-    ("replay", "catchloop", "NN", [_pre(0), _pre()], None),
+    ("replay", "catchloop", "NC", [_pre(0), _pre()], None),
 ]
+
+
+def _quick_k1_keep(target, on, seq, subs, dispose):
+    """quick tier: NewThreadScheduler programs cost 5-10x the event-loop ones (a thread per drain step); keep the short ones"""
+    if on != "newthread":
+        return True
+    if len(subs) == 1 and subs[0]["at"] == "pre" and subs[0]["raise"] is None and dispose is None:
+        return seq in ("NC", "NN", "NNC")
+    return seq == "NNC" and dispose is None and [s["at"] for s in subs] in (["pre"], ["thr"], ["pre", "thr"])
 
 
 def _enum_k1(tier):
     for target, on, seq, subs, dispose in _programs(small=False):
+        if tier == "quick" and not _quick_k1_keep(target, on, seq, subs, dispose):
+            continue
         m = 4 if (on == "newthread" and len(subs) > 1) else 1  # spread the big explorations over several cases
         for i in range(m):
             yield _case(target, on, seq, subs, conc.sched_all(1, [i, m] if m > 1 else None), False, dispose)
@@ -339,7 +349,7 @@ def _enum_k1(tier):
 
 
 def _enum_k2(tier):
-    m = 4 if tier == "quick" else 8
+    m = 8
     for target, on, seq, subs, dispose in _QUICK_K2 if tier == "quick" else _programs(small=True):
         for i in range(m):
             yield _case(target, on, seq, subs, conc.sched_all(2, [i, m]), True, dispose)
@@ -381,5 +391,5 @@ def checks(tier):
     return [
         Check("enum-k1", run, cases=_enum_k1, shards={"quick": 8, "thorough": 16}, exhaustive=True),
         Check("enum-k2", run, cases=_enum_k2, shards={"quick": 8, "thorough": 16}, exhaustive=True),
-        Check("gen", run, strategy=_gen, examples={"quick": 480, "thorough": 16 * 6000}, shards={"quick": 8, "thorough": 16}),
+        Check("gen", run, strategy=_gen, examples={"quick": 800, "thorough": 16 * 6000}, shards={"quick": 8, "thorough": 16}),
     ]
